@@ -893,6 +893,9 @@ size_t derOIDDec(char* oid, size_t* len, const octet der[], size_t count)
 	count = derDec2(&der, &l, der, count, 0x06);
 	if (count == SIZE_MAX)
 		return SIZE_MAX;
+	// пустое значение? последний sid не завершен?
+	if (l == 0 || (der[l - 1] & 128))
+		return SIZE_MAX;
 	// обработать sid
 	for (pos = oid_len = 0; pos < l; ++pos)
 	{
@@ -950,6 +953,9 @@ size_t derOIDDec2(const octet der[], size_t count, const char* oid)
 	// проверить тег и определить значение
 	count = derDec2(&der, &len, der, count, 0x06);
 	if (count == SIZE_MAX)
+		return SIZE_MAX;
+	// пустое значение? последний sid не завершен?
+	if (len == 0 || (der[len - 1] & 128))
 		return SIZE_MAX;
 	// обработать sid
 	for (pos = 0; pos < len; ++pos)
